@@ -6,6 +6,8 @@ import (
 	"context"
 	"errors"
 
+	"google.golang.org/grpc/codes"
+	"google.golang.org/grpc/status"
 	"google.golang.org/protobuf/reflect/protoreflect"
 )
 
@@ -127,6 +129,18 @@ func (c *fsCall) run(w *vWorld, cfg RawConfiguration) {
 // fsIsCtxErr: the error matches the context's error under errors.Is.
 func fsIsCtxErr(err error, ctx context.Context) bool {
 	return ctx.Err() != nil && errors.Is(err, ctx.Err())
+}
+
+// fsIsNodeFailureReport: the error reports failed nodes (Incomplete with node errors, or a
+// connection-level status error of an RPC) rather than the context's end.
+func fsIsNodeFailureReport(err error) bool {
+	if qe, ok := err.(QuorumCallError); ok {
+		return qe.cause == Incomplete && len(qe.errors) > 0
+	}
+	if st, ok := status.FromError(err); ok {
+		return st.Code() == codes.Unavailable || st.Code() == codes.Canceled
+	}
+	return false
 }
 
 // routersLeft counts the routing entries on all nodes of the world.
